@@ -235,7 +235,10 @@ func init() {
 				case c == 5 && r.running: // query in the middle of the history (over a fresh connection)
 					conn, err := varlink.NewConnection(ctx, r.addr)
 					if err != nil {
-						return err
+						// the service is supposed to be serving: not reachable is an observation of this history
+						snaps = append(snaps, &infoSnap{ok: false})
+						ops = append(ops, opRec{kind: "info", res: fmt.Sprintf("@snap%d", len(snaps)-1)})
+						continue
 					}
 					qctx, cancel := context.WithTimeout(ctx, 10*time.Second)
 					if g.Bool() {
